@@ -1,13 +1,23 @@
 (* C05 stage 2: model of Tokenizer.TokenizeWithLimits' depth / field accounting.
-   [fixed = true] is the accounting after the repair (query / mutation / subscription / fragment
-   start a new definition only outside of any selection set); [fixed = false] is the historical
-   accounting, kept only for the refutation theorem.  Go's ints are modelled as unbounded Z. *)
+   Two repairs were made to the Go code; the model carries a flag for each so that the historical
+   accountings remain available for the refutation theorems:
+     [fx = true]  query / mutation / subscription / fragment start a new definition only outside of
+                  any selection set (before: everywhere, which switched field counting off);
+     [cm = true]  a brace at the start of the document or right after the closing brace of the previous
+                  definition, outside parentheses, opens a shorthand operation and starts a new
+                  definition too (before: its depth was max'ed with the previous definition's peak
+                  instead of added to the cumulative depth).
+   The current Go code is [fx = true, cm = true].  Go's ints are modelled as unbounded Z. *)
 From Gv Require Import lib.Bytes C05.Lex C05.Parse.
 From Coq Require Import ZArith.
 Open Scope Z_scope.
 
-Record lstate := { l_global : Z; l_local : Z; l_peak : Z; l_fields : Z; l_spread : bool }.
-Definition linit : lstate := {| l_global := 0; l_local := 0; l_peak := 0; l_fields := 0; l_spread := false |}.
+Record lstate := {
+  l_global : Z; l_local : Z; l_peak : Z; l_fields : Z; l_spread : bool;
+  l_paren : Z;        (* parenDepth *)
+  l_open : bool }.    (* prev == UNDEFINED || prev == RBRACE : no token yet, or the last non-comment token closed a brace *)
+Definition linit : lstate :=
+  {| l_global := 0; l_local := 0; l_peak := 0; l_fields := 0; l_spread := false; l_paren := 0; l_open := true |}.
 
 Inductive lverdict := LOk | LDepth | LFields.
 
@@ -16,46 +26,66 @@ Definition limit_def_keywords : list identkw := [IKFragment; IKQuery; IKMutation
 Definition identkw_eqb (a b : identkw) : bool := bytes_eqb (identkw_name a) (identkw_name b).
 Definition is_def_kw (k : identkw) : bool := existsb (identkw_eqb k) limit_def_keywords.
 
+(* the shorthand-operation test at an opening brace *)
+Definition starts_shorthand (cm : bool) (s : lstate) : bool :=
+  cm && (l_local s <=? 0) && (l_paren s <=? 0) && l_open s.
+
 (* (verdict, TotalDepth, TotalFields) *)
-Fixpoint lim_run (fixed : bool) (maxD maxF : Z) (ts : list ptoken) (s : lstate) : lverdict * Z * Z :=
+Fixpoint lim_run (fx cm : bool) (maxD maxF : Z) (ts : list ptoken) (s : lstate) : lverdict * Z * Z :=
   match ts with
   | [] => (LOk, l_global s + l_peak s, l_fields s)
   | t :: r =>
     match pk t with
+    | KComment => lim_run fx cm maxD maxF r s
     | KLBrace =>
-      let g := l_global s + 1 in
-      if (0 <? maxD) && (maxD <? g) then (LDepth, g + l_peak s, l_fields s)
+      let flush := starts_shorthand cm s in
+      let g0 := if flush then l_global s + l_peak s else l_global s in
+      let l0 := if flush then 0 else l_local s in
+      let p0 := if flush then 0 else l_peak s in
+      let g := g0 + 1 in
+      if (0 <? maxD) && (maxD <? g) then (LDepth, g + p0, l_fields s)
       else
-        let l := l_local s + 1 in
-        lim_run fixed maxD maxF r
-          {| l_global := g; l_local := l; l_peak := (if l_peak s <? l then l else l_peak s);
-             l_fields := l_fields s; l_spread := false |}
+        let l := l0 + 1 in
+        lim_run fx cm maxD maxF r
+          {| l_global := g; l_local := l; l_peak := (if p0 <? l then l else p0);
+             l_fields := l_fields s; l_spread := false; l_paren := l_paren s; l_open := false |}
     | KRBrace =>
-      lim_run fixed maxD maxF r
+      lim_run fx cm maxD maxF r
         {| l_global := l_global s - 1; l_local := l_local s - 1; l_peak := l_peak s;
-           l_fields := l_fields s; l_spread := false |}
-    | KSpread =>
-      lim_run fixed maxD maxF r
+           l_fields := l_fields s; l_spread := false; l_paren := l_paren s; l_open := true |}
+    | KLParen =>
+      lim_run fx cm maxD maxF r
         {| l_global := l_global s; l_local := l_local s; l_peak := l_peak s;
-           l_fields := l_fields s; l_spread := true |}
+           l_fields := l_fields s; l_spread := l_spread s; l_paren := l_paren s + 1; l_open := false |}
+    | KRParen =>
+      lim_run fx cm maxD maxF r
+        {| l_global := l_global s; l_local := l_local s; l_peak := l_peak s;
+           l_fields := l_fields s; l_spread := l_spread s; l_paren := l_paren s - 1; l_open := false |}
+    | KSpread =>
+      lim_run fx cm maxD maxF r
+        {| l_global := l_global s; l_local := l_local s; l_peak := l_peak s;
+           l_fields := l_fields s; l_spread := true; l_paren := l_paren s; l_open := false |}
     | KIdent =>
-      if is_def_kw (keyword_of (plit t)) && (negb fixed || (l_local s <=? 0)) then
-        lim_run fixed maxD maxF r
+      if is_def_kw (keyword_of (plit t)) && (negb fx || (l_local s <=? 0)) then
+        lim_run fx cm maxD maxF r
           {| l_global := l_global s + l_peak s; l_local := 0; l_peak := 0;
-             l_fields := l_fields s; l_spread := false |}
+             l_fields := l_fields s; l_spread := false; l_paren := l_paren s; l_open := false |}
       else
         let n := if (0 <? l_local s) && negb (l_spread s) then l_fields s + 1 else l_fields s in
         if (0 <? maxF) && (maxF <? n) then (LFields, l_global s + l_peak s, n)
         else
-          lim_run fixed maxD maxF r
+          lim_run fx cm maxD maxF r
             {| l_global := l_global s; l_local := l_local s; l_peak := l_peak s;
-               l_fields := n; l_spread := false |}
-    | _ => lim_run fixed maxD maxF r s
+               l_fields := n; l_spread := false; l_paren := l_paren s; l_open := false |}
+    | _ =>
+      lim_run fx cm maxD maxF r
+        {| l_global := l_global s; l_local := l_local s; l_peak := l_peak s;
+           l_fields := l_fields s; l_spread := l_spread s; l_paren := l_paren s; l_open := false |}
     end
   end.
 
-Definition tokenize_limits (fixed : bool) (maxD maxF : Z) (b : bytes) : option (lverdict * Z * Z) :=
+Definition tokenize_limits (fx cm : bool) (maxD maxF : Z) (b : bytes) : option (lverdict * Z * Z) :=
   match lex b with
-  | Some ts => Some (lim_run fixed maxD maxF ts linit)
+  | Some ts => Some (lim_run fx cm maxD maxF ts linit)
   | None => None
   end.
